@@ -124,6 +124,7 @@ class C19(Prop):
             sess["max_repetitions"] = rng.choice([1, 2])
             rps = rng.choice([1, 2, 3, 7, 10, 100, 1000, 0.5, 33.3])
             sess["limit_rps"] = rps
+            sess["policer_arg"] = rng.choice([None, None, True, "both"])
             sess["timeout_ns"] = 1_000_000_000
             delta = int(NS / float(rps))
             ops = []
